@@ -40,6 +40,7 @@ def gen_consts(v):
         ('AN_OP_DMX', '%sARTNET_DMX' % an),
         ('AN_VERSION', '%sArtNetNodeImpl::ARTNET_VERSION' % an),
         ('AN_MAX_PORTS', '%sARTNET_MAX_PORTS' % an),
+        ('AN_NODE_TIMEOUT', '%sArtNetNodeImpl::NODE_TIMEOUT' % an),
         ('AN_OFF_version', 'offsetof(%sartnet_dmx_t, version)' % an),
         ('AN_OFF_sequence', 'offsetof(%sartnet_dmx_t, sequence)' % an),
         ('AN_OFF_physical', 'offsetof(%sartnet_dmx_t, physical)' % an),
@@ -124,7 +125,10 @@ RULE = ('frames of every length 0-512 x {random, all-equal, ramp, alternating, n
         'over the address space (universe/net/sub-net/port, priorities, sequence numbers incl. wrap, source names), '
         'same and different receiver address; E1.31 stream lifecycles on one receiver (n in 1..300 frames incl. 19/20/21 '
         'and sequence wrap, TerminateStream, m frames of a new stream, receiver buffer compared after every frame) and one sender streaming N in {2..512} universes round-robin for 3+ '
-        'rounds to a receiver with handlers on a sample of them (both revisions); transmit DmxBuffers carry history (an earlier, longer frame left in the '
+        'rounds to a receiver with handlers on a sample of them (both revisions), E1.31 streams with per-frame priority '
+        'changes; Art-Net receivers with 2-4 output ports on the same or mixed addresses; Art-Net two-node histories on a '
+        'virtual clock (>= 120 s, ArtPoll/ArtPollReply exchanged at intervals below and above the 31 s age-out, unicast '
+        'and always-broadcast senders); transmit DmxBuffers carry history (an earlier, longer frame left in the '
         '512-byte block; explicit dirty-block cases for Encode and ShowNet with short frames); Art-Net sender and receiver '
         'as separate nodes with 0/1/4 input ports and the address setters called in every order before/after Start(); '
         'non-trivial = complete encode / whole decode / datagram handled; '
@@ -140,7 +144,8 @@ TRUSTED = ['modelled rather than verified: RunLengthEncoder::Encode/Decode, DmxB
            'Get(channel), ShowNetNode::BuildCompressedPacket/HandlePacket/HandleCompressedPacket (size check as '
            'intended, see C06), SandNetNode::SendUncompressedDMX/SocketReady/HandleDMX, EspNetNode::SendEspData/'
            'SocketReady/HandleData(raw), PathportNode::SendDMX/SocketReady/HandleDmxData, ArtNetNodeImpl::SendDMX/'
-           'HandlePacket/HandleDataPacket/UpdatePortFromSource(first source), E131Node::SendDMXWithSequenceOffset + '
+           'HandlePacket/HandleDataPacket (all output ports)/UpdatePortFromSource(first source), HandleReplyPacket + '
+           'SendDMX subscribed-node ageing (one remote node, whole seconds), E131Node::SendDMXWithSequenceOffset + '
            'PDU/RootPDU/E131PDU/DMPPDU Pack + PreamblePacker, IncomingUDPTransport::Receive + BaseInflator walk + '
            'Root/E131/E131Rev2/DMP header decoders + DMPE131Inflator::HandlePDUData/TrackSourceIfRequired (one sender CID: '
            'first source, sequence window, termination), E131Node::TerminateStream/SendStreamTerminated; '
@@ -156,7 +161,9 @@ LEVEL_TEXT = ('Coq theorems, for all frames of 1-512 slots and all addresses, ab
               'E1.31 revisions 3 and 2: receive(build f) = the property\'s expected buffer over any old receiver '
               'buffer; c07_e131_stream_roundtrip: with a receiver that keeps its sequence/priority tracking state, every '
               'frame of a stream of any length and of a stream restarted after TerminateStream is delivered; '
-              'c07_e131_multi_universe: for any interleaving of sends over any universes by one sender each handler sees '
+              'c07_e131_stream_priorities (priority changing per frame), c07_artnet_ports (every output port registered on '
+              'the address is updated), c07_artnet_unicast_delivery (subscribed-node table: no frame is suppressed while '
+              'the receiver replies within the 31 s age-out); c07_e131_multi_universe: for any interleaving of sends over any universes by one sender each handler sees '
               'exactly the frames of its own universe (rev 3 proved; rev 2 multi-universe correspondence-tested); plus RunLengthEncoder lossless / bounded / false-iff-truncated / count bytes in 1..127 for all '
               'frames and capacities.  The models are tied to the C++ (real node objects, ASan/UBSan, datagram bytes '
               'compared) by a differential correspondence check; receivers are modelled with one handler and no '
@@ -386,6 +393,31 @@ def gen_cases(rng, tier):
             base = [rng.randrange(256) for _ in range(rng.choice([1, 2, 5, 24]) if N > 20 else rng.choice([1, 2, 24, 512]))]
             yield 'e1m %d %d %d %d %d %s %s' % (rev2, rng.choice([1, 1000, 65534 - N]), N, 3 if quick else rng.choice([3, 4]),
                                                 rng.choice([100, 100, 0, 200]), ','.join(map(str, idx)), hx(base))
+    # ---- Art-Net receivers with 2-4 output ports on the same / mixed addresses
+    for _ in range(40 if quick else 600):
+        uni = rng.randrange(16)
+        hs = [rng.choice([uni, uni, uni, (uni + 1) % 16, rng.randrange(16), 'x']) for _ in range(4)]
+        f = [rng.randrange(256) for _ in range(rng.choice([1, 2, 5, 24, 511, 512]))]
+        yield 'an3 %d %d %d %d %s %d %s' % (rng.randrange(128), rng.randrange(16), uni, rng.randrange(4),
+                                            ','.join(map(str, hs)), rng.choice([0, 1, 255]), hx(f))
+    for hs in ('3,3,x,x', 'x,3,3,3', '3,3,3,3', '4,3,4,3', 'x,x,x,3'):
+        yield 'an3 1 2 3 0 %s 0 %s' % (hs, hx([9, 8, 7]))
+    # ---- Art-Net long-running histories on a virtual clock: polls / replies exchanged, a frame every `step`
+    #      seconds for >= 120 s, unicast (default) and always-broadcast senders
+    for bc in (0, 0, 1):
+        for step, every in ((4, 2), (4, 7), (7, 4), (10, 3), (15, 2), (3, 10), (5, 6), (10, 4), (4, 0)):
+            steps = (130 // step) + rng.randrange(3)
+            f = [rng.randrange(256) for _ in range(rng.choice([1, 2, 5, 24] if quick else [1, 2, 24, 511, 512]))]
+            yield 'anu %d %d %d %d %d %d %d %s' % (bc, rng.randrange(128), rng.randrange(16), rng.randrange(16),
+                                                   step, steps, every, hx(f))
+    # ---- E1.31 streams whose priority changes from frame to frame (same CID), both revisions
+    plists = ['150,120,60', '200,0', '0,200,0', '100,100,99,99,100', '60,120,150,150,1', '1,0,0,1',
+              '200,199,198,197,196,195', '100,50,100,50,100']
+    for rev2 in (0, 1):
+        for pl in plists + [','.join(str(rng.choice([0, 1, 99, 100, 101, 199, 200])) for _ in range(rng.randrange(2, 30)))
+                            for _ in range(6 if quick else 200)]:
+            f = [rng.randrange(256) for _ in range(rng.choice([1, 2, 5, 24, 512]))]
+            yield 'e1p %d %d %s %s' % (rev2, rng.choice([1, 7, 63999, rng.randrange(1, 65535)]), pl, hx(f))
     if not quick:
         # all addresses of the small address spaces
         f = [1, 2, 3, 3, 3, 9]
@@ -420,6 +452,6 @@ def nontrivial(payload, md):
         return md.get('ret') == '1' and md.get('size') not in (None, '0')
     if op == 'dec':
         return md.get('dret') == '1' and md.get('dbuf') not in (None, 'none')
-    if op in ('e1s', 'e1m'):
+    if op in ('e1s', 'e1m', 'an3', 'anu', 'e1p'):
         return md.get('spec') == '1'
     return md.get('handled') == '1'
